@@ -141,6 +141,10 @@ func vSymbolic() bool { return false }
 // vLocalZone makes time.Local a fixed zone `off` seconds east of UTC.
 func vLocalZone(off int) { time.Local = time.FixedZone("LOC", off) }
 
+// vClockWindow: under the engine time.Now() is base+d seconds with symbolic
+// 0 <= d < span. Native: no effect (real time).
+func vClockWindow(base, span int64) {}
+
 // vClockFixed makes time.Now() return the given concrete Unix time from now
 // on (for harnesses in which time is not the subject). Native: no effect.
 func vClockFixed(sec int64) {}
